@@ -428,16 +428,26 @@ func timeCtl(args []string) error {
 	s := search.NewSearch()
 	return readTagged([]string{*inF}, "GRID", func(js string) error {
 		var g struct {
-			Time, Inc, MovesToGo, Phase, Stm int
+			Time, Inc, MovesToGo, Phase, Stm, Opp int
 		}
 		if err := json.Unmarshal([]byte(js), &g); err != nil {
 			return err
+		}
+		// the opponent's clock: the same, much more, or almost nothing
+		oppClock := func(rem int) (int, int) {
+			switch g.Opp {
+			case 1:
+				return 100*rem + 60000, 60000
+			case 2:
+				return 1, 0
+			}
+			return rem, g.Inc
 		}
 		p, _ := position.NewPositionFen(fens[g.Phase][g.Stm])
 		if p == nil || p.GamePhase() != g.Phase {
 			return fmt.Errorf("no position with phase %d", g.Phase)
 		}
-		fmt.Fprintf(w, "{\"ev\":\"start\",\"time\":%d,\"inc\":%d,\"movestogo\":%d,\"phase\":%d,\"stm\":%d,\"rem\":0,\"b\":0}\n", g.Time, g.Inc, g.MovesToGo, g.Phase, g.Stm)
+		fmt.Fprintf(w, "{\"ev\":\"start\",\"time\":%d,\"inc\":%d,\"movestogo\":%d,\"phase\":%d,\"stm\":%d,\"opp\":%d,\"rem\":0,\"b\":0}\n", g.Time, g.Inc, g.MovesToGo, g.Phase, g.Stm, g.Opp)
 		rem := g.Time
 		n := g.MovesToGo
 		if n == 0 {
@@ -446,10 +456,16 @@ func timeCtl(args []string) error {
 		for k := 0; k < n; k++ {
 			sl := search.NewSearchLimits()
 			sl.TimeControl = true
-			sl.WhiteTime = time.Duration(rem) * time.Millisecond
-			sl.BlackTime = sl.WhiteTime
-			sl.WhiteInc = time.Duration(g.Inc) * time.Millisecond
-			sl.BlackInc = sl.WhiteInc
+			ot, oi := oppClock(rem)
+			mine, theirs := &sl.WhiteTime, &sl.BlackTime
+			mineInc, theirInc := &sl.WhiteInc, &sl.BlackInc
+			if g.Stm == 1 {
+				mine, theirs, mineInc, theirInc = theirs, mine, theirInc, mineInc
+			}
+			*mine = time.Duration(rem) * time.Millisecond
+			*theirs = time.Duration(ot) * time.Millisecond
+			*mineInc = time.Duration(g.Inc) * time.Millisecond
+			*theirInc = time.Duration(oi) * time.Millisecond
 			if g.MovesToGo > 0 {
 				sl.MovesToGo = g.MovesToGo - k
 			}
@@ -458,7 +474,7 @@ func timeCtl(args []string) error {
 				return fmt.Errorf("time budget computation panicked: %s", perr)
 			}
 			b := int(budget.Microseconds() / 1000)
-			fmt.Fprintf(w, "{\"ev\":\"move\",\"time\":0,\"inc\":%d,\"movestogo\":%d,\"phase\":%d,\"stm\":%d,\"rem\":%d,\"b\":%d}\n", g.Inc, sl.MovesToGo, g.Phase, g.Stm, rem, b)
+			fmt.Fprintf(w, "{\"ev\":\"move\",\"time\":0,\"inc\":%d,\"movestogo\":%d,\"phase\":%d,\"stm\":%d,\"opp\":%d,\"rem\":%d,\"b\":%d}\n", g.Inc, sl.MovesToGo, g.Phase, g.Stm, g.Opp, rem, b)
 			if b > rem || rem-b+g.Inc < 0 {
 				break // the game is lost on time: the rest of it says nothing
 			}
